@@ -1,1 +1,6 @@
+pub mod c01;
+pub mod c02;
+pub mod c03;
+pub mod c05;
 pub mod c06;
+pub mod c18;
